@@ -131,6 +131,43 @@ func (p *producer) insertPart(c *srcColl, shard, n int, stepMs uint64, partName 
 	return rows
 }
 
+// deletePart produces one delete message (one fresh primary key) for an explicit partition on shard i and returns the key.
+func (p *producer) deletePart(c *srcColl, shard int, stepMs uint64, partName string, partID int64) int64 {
+	p.mu.Lock()
+	defer p.mu.Unlock()
+	pch := c.pch[shard]
+	ts := p.now(pch, stepMs)
+	p.nextRow++
+	pk := p.nextRow
+	m := &msgstream.DeleteMsg{BaseMsg: msgstream.BaseMsg{BeginTimestamp: ts, EndTimestamp: ts, HashValues: []uint32{0}},
+		DeleteRequest: &msgpb.DeleteRequest{Base: &commonpb.MsgBase{MsgType: commonpb.MsgType_Delete, Timestamp: ts, MsgID: pk},
+			CollectionID: c.id, CollectionName: c.name, DbName: c.db, PartitionName: partName, PartitionID: partID, ShardName: c.vch[shard],
+			NumRows: 1, Timestamps: []uint64{ts},
+			PrimaryKeys: &schemapb.IDs{IdField: &schemapb.IDs_IntId{IntId: &schemapb.LongArray{Data: []int64{pk}}}}}}
+	if err := p.stream(pch).Produce(context.Background(), &msgstream.MsgPack{Msgs: []msgstream.TsMsg{m}}); err != nil {
+		panic("VERIF-TROUBLE: produce: " + err.Error())
+	}
+	return pk
+}
+
+// acceptedDeletes returns primary key -> number of accepted ReplicateMessage packs that carried a delete of it.
+func acceptedDeletes(s *milvus.Server) map[int64]int {
+	out := map[int64]int{}
+	for _, p := range s.Packs() {
+		if !p.Accepted {
+			continue
+		}
+		for _, m := range p.Msgs {
+			if m.Type == commonpb.MsgType_Delete {
+				for _, k := range m.PKs {
+					out[k]++
+				}
+			}
+		}
+	}
+	return out
+}
+
 // dropCollection produces the drop-collection message on every shard (what the source does when a collection is dropped).
 func (p *producer) dropCollection(c *srcColl, stepMs uint64) {
 	p.mu.Lock()
